@@ -11,8 +11,8 @@ RULE = ("C03-style workloads (random/swept cuts, reordering+duplicating real ser
         "received messages unread (never / at most k get_message calls) so a backlog exists at close. Non-trivial = a verifier "
         "was seen and the wormhole closed with extra gets issued; distinct = decision traces.")
 ASSUMPTIONS = ["Deferred callbacks fire in the order the eventual queue was fed, so firing order = event order"]
-FLOORS = {"quick": {"extra_gets": 2000, "gets_after_close": 300, "closed": 600, "order_preserving_cases": 100, "unread_backlog_at_close": 40},
-          "thorough": {"extra_gets": 40000, "gets_after_close": 6000, "closed": 10000, "order_preserving_cases": 2000, "unread_backlog_at_close": 2500}}
+FLOORS = {"quick": {"extra_gets": 2000, "gets_after_close": 300, "closed": 600, "order_preserving_cases": 100, "unread_backlog_at_close": 40, "delegate_callbacks_raised": 40},
+          "thorough": {"extra_gets": 40000, "gets_after_close": 6000, "closed": 10000, "order_preserving_cases": 2000, "unread_backlog_at_close": 2500, "delegate_callbacks_raised": 1500}}
 ORDER = {"code": 0, "key": 1, "verifier": 2, "versions": 3, "msg": 3, "closed": 4}
 GETS = ["welcome", "code", "unverified_key", "verifier", "versions", "message"]
 
@@ -31,6 +31,13 @@ def cases(tier, seed, prep=None):
         over = {"api_" + who: "deferred", "get_" + who: ["never", "lazy"][i // 2 % 2], "get_limit": i % 3}
         out.append({"kind": "random", "seed": seed * 1000003 + 750000 + i, "server": ("plain" if i % 3 == 0 else "reorder"),
                     "mismatch": False, "ndrops": [0, 0, 1], "cfg_over": over, "min_msgs": 2, "unread": who.upper()})
+    # an application bug: a delegate callback raises while a server message is being processed; the wormhole then
+    # ends with that error - once, and nothing may follow it (more messages from the peer, a later close())
+    for i in range(60 if tier == "quick" else 2000):
+        who = "ab"[i % 2]
+        out.append({"kind": "random", "seed": seed * 1000003 + 760000 + i, "server": ("plain" if i % 3 == 0 else "reorder"),
+                    "mismatch": False, "ndrops": [0, 0, 1], "cfg_over": {"api_" + who: "delegate"}, "min_msgs": 3,
+                    "app_bug": [who.upper(), ["msg", "msg", "versions", "verifier"][i % 4], 1 + (i // 4) % 3]})
     bases = range(2) if tier == "quick" else range(16)
     for b in bases:
         for who in "AB":
@@ -52,6 +59,8 @@ def run_case(spec):
             c = drv.a.code
             return None if c is None else c + "x"
         drv.code_for_b = code_for_b
+    if spec.get("app_bug"):
+        drv.app(spec["app_bug"][0]).raise_on = [spec["app_bug"][1], spec["app_bug"][2] if spec["app_bug"][1] == "msg" else 1]
     chained = 0
     for app in (drv.a, drv.b):
         if app.api == "deferred" and rng.random() < 0.5:
@@ -76,7 +85,8 @@ def run_case(spec):
         return acts
     drv.actions = actions
     drv.drain_actions = actions
-    done = (lambda: drv.all_delivered()) if not spec.get("mismatch") else (
+    bug_app = drv.app(spec["app_bug"][0]) if spec.get("app_bug") else None
+    done = (lambda: drv.all_delivered() or (bug_app is not None and bug_app.closed and drv.all_sent())) if not spec.get("mismatch") else (
         lambda: any(k.endswith("-err") for k in drv.a.kinds() + drv.b.kinds()))
     if spec.get("unread"):
         rd = drv.app("B" if spec["unread"] == "A" else "A")     # the side that does read everything
@@ -193,7 +203,7 @@ def run_case(spec):
         "counters": dict(counters, closed=int(drv.a.closed) + int(drv.b.closed), drops=drv.drops_done,
                          order_preserving_cases=int(spec["server"] == "plain"),
                          mismatch_cases=int(bool(spec.get("mismatch"))),
-                         unread_backlog_at_close=backlog, delegate_sides=int(drv.a.api == "delegate") + int(drv.b.api == "delegate"),
+                         unread_backlog_at_close=backlog, delegate_callbacks_raised=(getattr(drv.a, "raised", 0) + getattr(drv.b, "raised", 0)), delegate_sides=int(drv.a.api == "delegate") + int(drv.b.api == "delegate"),
                          notrans_seen=len(MON.notrans), log_errors_seen=len(MON.errors)),
         "sets": {"event_sequences": [" ".join(k for k in drv.a.kinds() if k in ORDER)]},
         "sample": {"spec": spec, "A": drv.a.kinds(), "B": drv.b.kinds(), "A_gets": drv.a.get_results[:10],
